@@ -129,7 +129,7 @@ class ProgGen:
     def small_ty(self, depth=1):
         if "core" in self.features:
             # the fragment of Model/BitSem.lean: scalars; with "agg" also arrays and tuples of them
-            return self.tg.ty_plain(min(depth, 2), "structs" in self.features) if "agg" in self.features else self.tg.ty(0)
+            return self.tg.ty_plain(min(depth, 2), "structs" in self.features, "enums" in self.features) if "agg" in self.features else self.tg.ty(0)
         return self.tg.ty(depth)
 
     def int_ty(self):
@@ -240,7 +240,7 @@ class ProgGen:
             choices = ["if", "block"] + (["match"] if "match" in self.features else []) + (["call", "call"] if "helpers" in self.features and any(h["ret"] == ty for h in self.helpers) else [])
             if any(t["k"] == "array" and t["elem"] == ty and t["n"] > 0 for _, t in self.components(1)):
                 choices += ["index", "index"]
-            if k in ("array", "tuple", "struct"):
+            if k in ("array", "tuple", "struct", "enum"):
                 choices += ["aggregate", "aggregate", "aggregate"]
             else:
                 choices += (["cmp", "cmp", "eq", "logic", "logic", "not", "castbool"] if k == "bool" else ["arith", "arith", "arith", "bit", "cast", "shift"] + (["unary"] if signed(ty) else []))
@@ -976,7 +976,8 @@ class ProgGen:
         for h in self.helpers:
             src += f"fn {h['name']}({sig(h['params'], h['muts'])}) -> {T.ty_str(h['ret'])} {{\n    {h['text']}\n}}\n"
             fns.append({"name": h["name"], "params": [[n, t] for n, t in h["params"]], "ret": h["ret"], "body": h["ast"]})
-        return {"src": src, "prog": {"fns": fns, "consts": []}, "params": [[n, t] for n, t, _ in params], "ret": ret}
+        enums = [[n, t["variants"]] for n, t in sorted(self.tg.enums.items())]
+        return {"src": src, "prog": {"fns": fns, "consts": [], "enums": enums}, "params": [[n, t] for n, t, _ in params], "ret": ret}
 
 
 # ---------------------------------------------------------------------- values as JSON for the Lean driver
